@@ -262,7 +262,7 @@ func init() {
 		return &fw.Prop{
 			ID:          "C11",
 			Level:       "exploration",
-			Rule:        "cases = 'history' (seeded random observe/squeeze sequences of length 0..200 over element / elements / hash / BN254 hash / cap / extension observations and single / multiple / extension / hash challenge requests, plus forced rate-boundary, observe-after-squeeze and empty-buffer patterns) executed on the real challenger chip; every squeezed value must equal the native duplex challenger fed the same history; 'transcript' (real proofs and random transcripts of the same shape) -> all challenges of VerifierChip.GetChallenges vs. the reference transcript; 'influence' (real proof, observed leaf position) -> after changing the observed value every challenge drawn before it is unchanged and every challenge drawn after it changes. Non-trivial = at least one challenge compared; distinct by case id.",
+			Rule:        "cases = 'history' (seeded random observe/squeeze sequences of length 0..200 over element / elements / hash / BN254 hash / cap / extension observations and single / multiple / extension / hash challenge requests, plus forced rate-boundary, observe-after-squeeze and empty-buffer patterns) executed on the real challenger chip; every squeezed value must equal the native duplex challenger fed the same history; 'transcript' (real proofs and random transcripts of the same shape) -> all challenges of VerifierChip.GetChallenges vs. the reference transcript; 'influence' (real proof, observed leaf position) -> after changing the observed value every challenge drawn before it is unchanged and every challenge drawn after it changes. Non-trivial = at least one challenge compared; distinct by case id. Also: consecutive windows of one slice observed with other observations in between, use of the challenger after GetFriChallenges, description fields the transcript must not depend on varied, and a 46-operation history compiled with a real builder (values are circuit variables).",
 			Assumptions: []string{"the reference challenger follows plonky2's Challenger (validated through the challenge values hard-coded in the repository's FRI test and by accepting the real proofs)"},
 			MinEvents:   100000,
 			Setup:       func(ctx *fw.Ctx) error { return refSelfTest(true) },
@@ -772,7 +772,7 @@ func init() {
 		return &fw.Prop{
 			ID:          "C12",
 			Level:       "exploration",
-			Rule:        "cases = (tree height 4..12, leaf width in {1,2,3,4,5,9,10,17,63,85,135,140}, leaf index, corruption in {none, leaf element, sibling, index bit, cap-index bit, selected cap entry, unselected cap entry, swapped left/right of one level, wrong cap slot}) executed through the repository's Merkle gadget (verif hook) on synthetic trees built with the reference PoseidonBN128; oracle is the iff: ACCEPT exactly when the reference fold of the (possibly corrupted) data, ordered by the (possibly corrupted) index bits, equals the cap entry the (possibly corrupted) cap bits select. Non-trivial = every case (both accept and reject expectations occur); distinct by case id.",
+			Rule:        "cases = (tree height 4..12, leaf width in {1,2,3,4,5,9,10,17,63,85,135,140}, leaf index, corruption in {none, leaf element, sibling, index bit, cap-index bit, selected cap entry, unselected cap entry, swapped left/right of one level, wrong cap slot}) executed through the repository's Merkle gadget (verif hook) on synthetic trees built with the reference PoseidonBN128; oracle is the iff: ACCEPT exactly when the reference fold of the (possibly corrupted) data, ordered by the (possibly corrupted) index bits, equals the cap entry the (possibly corrupted) cap bits select. Non-trivial = every case (both accept and reject expectations occur); distinct by case id. Also: structured corruption steps (+-1, multiples of the Goldilocks prime, limb-sized powers of two), a non-boolean index bit with a crafted sibling, and the gadget compiled with a real builder on three tree shapes.",
 			Assumptions: []string{"cap height is 4 (the gadget refuses anything else; C20 covers that)"},
 			MinEvents:   2000,
 			Setup:       func(ctx *fw.Ctx) error { return refSelfTest(false) },
@@ -1153,7 +1153,7 @@ func init() {
 		return &fw.Prop{
 			ID:          "C14",
 			Level:       "exploration",
-			Rule:        "cases = 'gadget' (range-check configuration in {native, plain, env-forced bit decomposition (child process), commit}, difficulty b in 1..63 — under commit only b with 64-b a multiple of 16 are supported, the others must be REFUSED —, response in {2^(64-b)-1, 2^(64-b), 2^(64-b)+1, p-1, 0, 1, random}) through the repository's assertLeadingZeros (verif hook): ACCEPT iff response < 2^(64-b); 'witness' (real proof, substituted proof-of-work witness) through the whole circuit: the in-circuit response must equal the reference response for the supplied witness and the verdict must be REJECT unless the reference accepts. Non-trivial = both an accepting and a rejecting response were judged for the configuration, or the witness differs from the proof's; distinct by case id.",
+			Rule:        "cases = 'gadget' (range-check configuration in {native, plain, env-forced bit decomposition (child process), commit}, difficulty b in 1..63 — under commit only b with 64-b a multiple of 16 are supported, the others must be REFUSED —, response in {2^(64-b)-1, 2^(64-b), 2^(64-b)+1, p-1, 0, 1, random}) through the repository's assertLeadingZeros (verif hook): ACCEPT iff response < 2^(64-b); 'witness' (real proof, substituted proof-of-work witness) through the whole circuit: the in-circuit response must equal the reference response for the supplied witness and the verdict must be REJECT unless the reference accepts. Non-trivial = both an accepting and a rejecting response were judged for the configuration, or the witness differs from the proof's; distinct by case id. Also: the difficulty raised in fri_params.config alone must be enough to refuse.",
 			Assumptions: []string{"plonky2 counts leading zeros of the canonical 64-bit response"},
 			MinEvents:   10000,
 			Setup:       func(ctx *fw.Ctx) error { return refSelfTest(true) },
